@@ -47,6 +47,7 @@ from typing_extensions import Concatenate, ParamSpec, Self, override
 
 import gtirb_rewriting._auxdata as _auxdata
 
+from .. import _verif
 from .._adt import IdentitySet, OffsetMapping
 from .._auxdata import NULL_UUID, CFIDirectiveType
 from ..assembly import X86Syntax
@@ -617,6 +618,9 @@ class Assembler:
             implicit_cfi_procedure=self._state.implicit_cfi_procedure,
             ignore_symver_directives=self._state.ignore_symver_directives,
         )
+
+        if _verif.ENABLED:
+            _verif.emit("assembler_finalize", assembler=self, result=result)
 
         return result
 
